@@ -937,6 +937,22 @@ theorem F18_legacy_non_2xx_counts_as_accepted :
     (∀ e ∈ (legacyPush true [⟨[⟨304, false⟩], [], [], []⟩] []).1, e.isManifest = false) := by
   decide
 
+/-- **Sequential pushes: every push of a history commits its manifest last, on its own.**  No push
+    of a sequential history inherits anything from an earlier one (the upload manager entry lives
+    exactly as long as its transfer): for every push, a manifest request is sent iff every layer
+    of THAT push was settled by a request of THAT push (its HEAD to its repository, or a commit
+    try), all of them before the manifest exchange. -/
+theorem legacy_sequential_each_push_manifest_last (strict : Bool) (ps : List (List LegacyLayer × List Resp)) :
+    ∀ r ∈ legacySequential strict ps, ∃ ls man, (ls, man) ∈ ps ∧ r = legacyPush strict ls man ∧
+      ((∃ e ∈ r.1, e.isManifest = true) ↔ (legacyLayers strict 0 ls).2 = true) ∧
+      ((legacyLayers strict 0 ls).2 = true → ∃ body, r.1 = body ++ (legacyManifest strict man).1 ∧
+          (∀ e ∈ body, e.isManifest = false) ∧ ∀ j, j < ls.length → settled strict j body) ∧
+      (r.2 = true → (legacyLayers strict 0 ls).2 = true) := by
+  intro r hr
+  simp only [legacySequential, List.mem_map] at hr
+  obtain ⟨⟨ls, man⟩, hp, rfl⟩ := hr
+  exact ⟨ls, man, hp, rfl, legacy_push_manifest_last strict ls man⟩
+
 /-! ### Two legacy pushes sharing one upload -/
 
 /-- a transfer that ended well was settled by a commit answer the code accepts (2xx when `strict`) -/
